@@ -229,7 +229,7 @@ impl Maybe<Candidate> {
         proof { assert(attrs_of(*start).take(attrs_of(*start).len() as int) =~= attrs_of(*start)); }
 //@before /let attr = /
             let ghost k0 = it__0.pos@ - 1;
-//@before /match reader\.resolve_attribute\(attr\.key\)/
+//@before-stmt /reader\.resolve_attribute\(attr\.key\)/
             proof { lemma_last_annotation_step(it__0.all@, k0); lemma_inactive_step(it__0.all@, k0); }
 //@end
 }
